@@ -1,5 +1,43 @@
-(* C18 — lemmas *)
-From Coq Require Import ZArith List Bool Lia.
+(* C18 — lemmas.  The development lives in GkProofs.v (builder, dedup, permutations, font maps,
+   bookkeeping, table keyed); this file adds the statements that combine them. *)
+From Coq Require Import ZArith List Bool Lia Permutation.
 From FV Require Import Lib.RustInt C18.Model.
+From FV Require Export C18.GkProofs.
 Import ListNotations.
 Open Scope Z_scope.
+
+(* the offset type changes only when the new total size does not fit the old one, the chosen type
+   is the first available one that represents the total, and every emitted offset fits it *)
+Lemma poa_type_widens_only_when_needed views t offs data T avail maxgid T' os ds :
+  patch_offset_array views t offs data T avail maxgid = inr (T', os, ds) ->
+  Forall (fun x => off_fits T' x = true) os /\
+  exists total,
+    (total <= ot_max T /\ T' = T) \/
+    (ot_max T < total /\ total <= ot_max T' /\
+     exists pre post, avail = pre ++ T' :: post /\ Forall (fun c => ot_max c < total) pre).
+Proof.
+  intros H. pose proof H as H0. apply poa_inv in H. destruct H as [m [total [D [C [_ [_ B]]]]]].
+  split; [eapply build_loop_fits; eauto|]. exists total. now apply choose_type_spec.
+Qed.
+
+(* glyf/loca: the tables put into the new font are the builder's data and its encoded offsets, and
+   the loca format never changes *)
+Lemma patch_glyf_inv f views maxgid glyf' loca' :
+  patch_glyf f views maxgid = inr (glyf', loca') ->
+  exists glyf T offs os,
+    lookup f T_glyf = Some glyf /\ read_loca f = Some (T, offs) /\
+    patch_offset_array views T_glyf offs glyf T [T] maxgid = inr (T, os, glyf') /\
+    loca' = encode_offsets T os.
+Proof.
+  unfold patch_glyf. destruct (lookup f T_glyf) as [glyf|]; [|discriminate].
+  destruct (read_loca f) as [[T offs]|]; [|discriminate].
+  destruct (patch_offset_array views T_glyf offs glyf T [T] maxgid) as [?|[[T' os] ds]] eqn:E; cbn [bind]; [discriminate|].
+  destruct (otype_eqb T' T) eqn:Q; cbn [negb]; [|discriminate].
+  intros H; inversion H; subst.
+  assert (T' = T).
+  { pose proof E as E0. apply poa_inv in E0. destruct E0 as [m [total [_ [C _]]]].
+    apply choose_type_spec in C. destruct C as [[_ ->]|[_ [_ [pre [post [Hp _]]]]]]; [reflexivity|].
+    destruct pre as [|a pre]; cbn in Hp; [inversion Hp; reflexivity|].
+    inversion Hp as [[Ha Hrest]]. destruct pre; discriminate. }
+  subst T'. exists glyf, T, offs, os. auto.
+Qed.
